@@ -61,12 +61,27 @@ def sem_of(patt, tabulate=False):
         if rich is None:
             raise KeyError("no occupancy table for pattern %r (horizon too small)" % (patt,))
         s = SEMS[patt] = X.Sem(patt, rich)
+        s.texts = TEXTS
     if tabulate and s._f is None and s.ncells <= 16:
         s.tabulate()
         if s.ncells == 16:                      # big tables: keep at most two per process
             _TAB_LRU.append(s)
             while len(_TAB_LRU) > 2:
                 _TAB_LRU.pop(0)._f = None
+    return s
+
+
+_LOCAL = {}
+
+
+def local_sem_of(patt, extra):
+    """X.LocalSem(patt, extra), a few kept per process."""
+    key = (tuple(patt), extra)
+    s = _LOCAL.get(key)
+    if s is None:
+        while len(_LOCAL) >= 3:
+            _LOCAL.pop(next(iter(_LOCAL)))
+        s = _LOCAL[key] = X.LocalSem(patt, extra)
     return s
 
 
@@ -143,6 +158,8 @@ def eval_unit(part, lib, patt, shm, cfg, warm=None):
     shading = frozenset(X.cells_of(k, shm))
     subs = cfg["subs"]
     base = {"patt": list(patt), "shading": sorted(shading), "N": cfg["N"]}
+    if cfg.get("local"):
+        base["local"] = cfg["local"]
     if warm is not None:
         base["warm"] = warm
 
@@ -159,18 +176,32 @@ def eval_unit(part, lib, patt, shm, cfg, warm=None):
     except Exception as exc:  # noqa
         viol("construct", {}, {"exception": repr(exc)})
         return
-    sem = sem_of(patt, tabulate=True)
-    base_set = sem.contain(shm)
     sound_cache = {}
+    if cfg.get("local"):
+        # long patterns: texts = all extensions of the pattern by <= cfg["local"] points
+        sem = local_sem_of(patt, cfg["local"])
+        base_set, forced = sem.analyse(shm)
 
-    def unsound(cm):
-        """None if shading the cells of mask cm keeps the containing set on S<=N, else a witness."""
-        r = sound_cache.get(cm, 0)
-        if r == 0:
-            after = sem.contain(shm | cm)
-            r = None if after == base_set else list(TEXTS[X.first_bit(after ^ base_set)])
-            sound_cache[cm] = r
-        return r
+        def unsound(cm):
+            if not cm & (cm - 1):                    # one cell: read off the forced cells
+                return list(sem.lost(shm, cm)) if forced & cm else None
+            r = sound_cache.get(cm, 0)
+            if r == 0:
+                r = sem.lost(shm, cm)
+                r = sound_cache[cm] = None if r is None else list(r)
+            return r
+    else:
+        sem = sem_of(patt, tabulate=True)
+        base_set = sem.contain(shm)
+
+        def unsound(cm):
+            """None if shading the cells of mask cm keeps the containing set on S<=N, else a witness."""
+            r = sound_cache.get(cm, 0)
+            if r == 0:
+                after = sem.contain(shm | cm)
+                r = None if after == base_set else list(TEXTS[X.first_bit(after ^ base_set)])
+                sound_cache[cm] = r
+            return r
 
     single = {}     # cell -> answer of can_shade
     pairs = {}      # (c1, c2) -> answer of can_simul_shade
